@@ -102,6 +102,7 @@ func genTxPlan(prop string, seed uint64, thorough bool) *Plan {
 		items := []Item{{Op: "barrier", N: 1}}
 		add := func(a ...string) { items = append(items, cmdItem(a...)) }
 		ntx := 1 + g.r.IntN(4)
+		selected := false
 		for t := 0; t < ntx; t++ {
 			// optional WATCH phase
 			if prop == "C10" || g.chance(3) {
@@ -116,6 +117,12 @@ func genTxPlan(prop string, seed uint64, thorough bool) *Plan {
 				}
 				if g.chance(6) {
 					add("WATCH", g.key())
+				}
+				if g.chance(6) {
+					// the transaction runs in another database than the one the
+					// keys were watched in (the other connections keep writing there)
+					add("SELECT", g.pick("1", "2"))
+					selected = true
 				}
 			}
 			// things between WATCH and MULTI, by this client
@@ -176,6 +183,10 @@ func genTxPlan(prop string, seed uint64, thorough bool) *Plan {
 			// the connection must be back in normal mode
 			if g.chance(2) {
 				add(g.concCmd(tk)...)
+			}
+			if selected && g.chance(2) {
+				add("SELECT", "0")
+				selected = false
 			}
 		}
 		if g.chance(3) {
